@@ -20,6 +20,11 @@ IsZero(h) == Len(h) = 0 \/ (SubSeq(h, 1, 1) = "0" /\ IsZero(SubSeq(h, 2, Len(h))
 
 Splice(h, off, d) == SubSeq(h, 1, 2 * off) \o d \o SubSeq(h, 2 * off + Len(d) + 1, Len(h))
 
+LOCAL HexDigits == <<"0","1","2","3","4","5","6","7","8","9","a","b","c","d","e","f">>
+LOCAL NibVal(c) == (CHOOSE d \in 1..16 : HexDigits[d] = c) - 1
+\* bit i of byte string h; bit 0 is the most significant bit of the first byte
+BitAt(h, i) == (NibVal(SubSeq(h, (i \div 4) + 1, (i \div 4) + 1)) \div (2 ^ (3 - (i % 4)))) % 2
+
 PadLen(n) == (8 - (n % 8)) % 8                   \* bytes needed to reach a multiple of 8
 Pad8(h) == h \o Zeros(PadLen(BLen(h)))           \* right-pad to a multiple of 8 bytes
 Aligned8(n) == n + PadLen(n)
